@@ -33,7 +33,7 @@ MANIFEST = {
     "category": "proof",
 }
 
-REQUIRED = ["KV.C10.trie_duplicate_iff", "KV.C10.mapAndVocab_ok", "KV.C10.constants_ok", "KV.C10.accepted_wellformed", "KV.C10.build_total", "KV.C10.trie_error_iff",
+REQUIRED = ["KV.C10.probing_accept_has_empty_bucket", "KV.C10.trie_duplicate_iff", "KV.C10.mapAndVocab_ok", "KV.C10.constants_ok", "KV.C10.accepted_wellformed", "KV.C10.build_total", "KV.C10.trie_error_iff",
             "KV.C10.probing_error_classes", "KV.C10.trie_accept_wellformed", "KV.C10.trie_accept_wellformed_full",
             "KV.C10.parse_unigramsCover", "KV.C10.header_accept_sound", "KV.C10.lookups_in_range",
             "KV.C10.header_mismatch", "KV.C10.header_no_ub"]
@@ -220,7 +220,7 @@ def evaluate_arpa(ctx, hexe, dexe, c01h, c01d, work, items, oracle_budget, tag="
             # (i) the property oracle
             if r[0] in ("crash", "hang", "lost"):
                 small = data
-                if small_enough:
+                if small_enough and SHRINK_BUDGET[0] > 0:
                     real0, model0, _ = arpa_signature(hexe, dexe, work, data, c, mult=it["mult"], mem=it["mem"], seed=it["seeds"][c])
                     if real0 in ("crash", "hang"):
                         small = shrink_arpa(hexe, dexe, work, data, c, (real0, model0), mult=it["mult"], seed=it["seeds"][c])
